@@ -450,7 +450,7 @@ func init() {
 			{Name: "BIT-VOFFSET", What: "all vOffset copies compute File<<16|Block and makeOffset is the inverse (bit domain, all values)", Floor: 6, Run: ruleVOffset},
 			{Name: "PATH-LASTCHUNK", What: "bgzf Read/ReadByte refresh lastChunk around every consume; no success return without it (a zero-length Read still steps over exhausted blocks, which ChunkReader relies on)", Floor: 2, Run: ruleLastChunk},
 		},
-		Explanation: "The mechanisms the replay guarantee rests on, each decided on every path: the per-record transaction (PATH-TX) that makes LastChunk span exactly one record, the limit test that dominates every record read (PATH-CHUNKLIMIT, comparison operator included), the iterator's one-chunk-at-a-time hand-over (COUPLED-ITER), the Blocked-mode pairing of ChunkReader (PAIR-BLOCKED), the virtual-offset packing all comparisons use (BIT-VOFFSET, proved for all values in the bit domain), and the bgzf reader's lastChunk bookkeeping (PATH-LASTCHUNK).",
+		Explanation: "The mechanisms the replay guarantee rests on, each decided on every path: the per-record transaction (PATH-TX) that makes LastChunk span exactly one record, the limit test that dominates every record read (PATH-CHUNKLIMIT, comparison operator included), the iterator's one-chunk-at-a-time hand-over (COUPLED-ITER), the Blocked-mode pairing of ChunkReader (PAIR-BLOCKED), the virtual-offset packing all comparisons use (BIT-VOFFSET, proved for all values in the bit domain), and the bgzf reader's lastChunk bookkeeping (PATH-LASTCHUNK); ChunkReader moves on past an exhausted chunk (CHUNK-ADVANCE) and gives a chunk up after a read only because of where the reader is (CHUNK-PROGRESS).",
 		NotDecided:  "off-by-one behaviour at block ends (End (base,len) versus next Begin (next,0)), ChunkReader's clamp arithmetic – value-level. The claim is thin and says so.",
 	})
 }
